@@ -264,6 +264,10 @@ pub enum DecompressBlockError {
     SequencesHeaderParseError(SequencesHeaderParseError),
     DecodeSequenceError(DecodeSequenceError),
     ExecuteSequencesError(ExecuteSequencesError),
+    LiteralsSizeTooLarge {
+        size: usize,
+        max: usize,
+    },
 }
 
 #[cfg(feature = "std")]
@@ -300,6 +304,11 @@ impl core::fmt::Display for DecompressBlockError {
             DecompressBlockError::SequencesHeaderParseError(e) => write!(f, "{e:?}"),
             DecompressBlockError::DecodeSequenceError(e) => write!(f, "{e:?}"),
             DecompressBlockError::ExecuteSequencesError(e) => write!(f, "{e:?}"),
+            DecompressBlockError::LiteralsSizeTooLarge { size, max } => {
+                write!(f,
+                    "Literals section wants to regenerate {size} bytes, a block can contain at most {max}",
+                )
+            }
         }
     }
 }
@@ -684,6 +693,7 @@ pub enum ExecuteSequencesError {
     DecodebufferError(DecodeBufferError),
     NotEnoughBytesForSequence { wanted: usize, have: usize },
     ZeroOffset,
+    BlockSizeExceeded { size: usize, max: usize },
 }
 
 impl core::fmt::Display for ExecuteSequencesError {
@@ -700,6 +710,12 @@ impl core::fmt::Display for ExecuteSequencesError {
             }
             ExecuteSequencesError::ZeroOffset => {
                 write!(f, "Illegal offset: 0 found")
+            }
+            ExecuteSequencesError::BlockSizeExceeded { size, max } => {
+                write!(
+                    f,
+                    "Block wants to regenerate at least {size} bytes, the maximum is {max}"
+                )
             }
         }
     }
